@@ -189,6 +189,13 @@ def step (st : St) (line : String) : St × String :=
       | .ok s => (st, showStructure s)
       | .error e => (st, "ERR:" ++ e.toString)
     | _, _ => (st, "bad-op")
+  | ["boxes", body] =>
+    -- per-model box tokens of a stack (`-` = no box): the written cell token and the boxes read back
+    let boxes : Option (List Tok) := if body == "-" then none else some ((body.splitOn ",").map dec)
+    let cell := writeCell boxes
+    let n := match boxes with | some bs => bs.length | none => 1
+    (st, "ok cell=" ++ (match cell with | some c => enc c | none => "-") ++ " read=" ++
+      (match readBoxes cell n with | some bs => joinWith "," (bs.map enc) | none => "-"))
   | ["find", qs, rs] =>
     match (splitE ";" qs).mapM (fun k => parseKey (k.splitOn ",")), (splitE ";" rs).mapM (fun k => parseKey (k.splitOn ",")) with
     | some qs, some rs =>
